@@ -92,8 +92,12 @@ class SchemaField:
                 err = SchemaField._validate_value_number(
                     value, float, no_nonfinite=True
                 )
-            elif t in {"STRING", "MULTIPLESTRINGVALUE"}:
+            elif t in {"STRING"}:
                 err = SchemaField._validate_value_str(value)
+            elif t in {"MULTIPLESTRINGVALUE", "MULTIPLEVALUESTRING"}:
+                err = SchemaField._validate_value_str(value)
+                if not err and "" in value.split(" "):
+                    err = "empty item in space delimited values"
             elif t in {"CHAR"}:
                 err = SchemaField._validate_value_str(value, max_len=1)
             elif t in {"BOOLEAN"}:
